@@ -217,14 +217,14 @@ def check(ctx: vlib.Ctx) -> int:
         _sample_goals(ctx, rng, py, consts)
         _fftfreq_cases(ctx)
     # --- correspondence, oracle-spec and property oracle on generated fields
-    n = ctx.scale(70, 420)
+    n = ctx.scale(120, 1200)
     if ctx.broken:
-        n = max(n, 150)  # search for a failing input
+        n = max(n, 200)  # search for a failing input
     failures = []
     corr_bad = []
     spec_bad = {}
     for i in range(n):
-        c = sc.gen_case(rng)
+        c = sc.gen_case(rng, big=(not ctx.quick and i % 4 == 3))
         data = sc.build(c)
         if float(np.ptp(data)) == 0.0:
             ctx.case(sc.canon(c), nontrivial=False)
